@@ -562,6 +562,10 @@ def documented_extras(engine):
             ({"call": "polars:Categorical"}, True),
             ({"call": "pandera.dtypes:Category", "args": [["a", "b"]]}, True),
             ({"call": "pandera.engines.polars_engine:DateTime", "kw": {"time_zone": "UTC", "time_unit": "ns"}}, True),
+            # time-zone agnostic datetimes: recognise any datetime of that unit, nothing that is not a datetime
+            ({"call": "pandera.engines.polars_engine:DateTime", "kw": {"time_zone_agnostic": True, "time_unit": "us"}}, True),
+            ({"call": "pandera.engines.polars_engine:DateTime", "kw": {"time_zone_agnostic": True, "time_unit": "ns"}}, True),
+            ({"call": "pandera.engines.polars_engine:DateTime", "kw": {"time_zone_agnostic": True, "time_unit": "ms"}}, True),
         ]
     elif engine == "pyspark":
         for n in ["BooleanType", "StringType", "IntegerType", "LongType", "ShortType", "ByteType", "FloatType",
